@@ -29,6 +29,14 @@ package main
 // a `PO` line and every map as a `PQ` line for Driver/PresenceEngine.lean (embedded in SrvEngine); the map of a
 // snapshot-fed replica is the model's fold of the stored presence changes (`PSNAP`).
 //
+// Lost responses (C05): `! lostsync r2` lets the HTTP tap drop the answer of a PushPullChanges AFTER the server has
+// processed the request: the SDK call fails, the replica keeps its checkpoint and its local changes, the server
+// model has run the request completely (`lost=1`), and the next sync of the replica is a retry whose pack carries
+// changes that are already stored – answered with changes (own-change filter) or, at the low thresholds most traces
+// use, with a snapshot. Oracles: every (attachment, clientSeq) is stored once, the reserved root counter reflects
+// every stored increase once, convergence after the retry. (Attach / Detach responses are not dropped: the SDK
+// cannot retry them – the server refuses the second call, Props/C05 lifecycle_retry_refused_witness.)
+//
 // Every step is first written as an API-level line (`! attach c1 dp=0 pres=k=v`, `! edit r2 <seed>`, `! sync r2`,
 // `! probe <seed>` …; the driver ignores them) and then executed from that line, so a trace file is replayed by
 // executing its `!` lines (corpus witnesses are such scripts); a file with only a `T srv-<seed>-<i>` line is
@@ -112,7 +120,12 @@ type svTap struct {
 	base http.RoundTripper
 	mu   sync.Mutex
 	caps []svCapture
+	// dropNext: the response of the next PushPullChanges is captured and then LOST on its way back (the SDK call
+	// fails with a transport error after the server has processed the request completely)
+	dropNext bool
 }
+
+var errSvResponseLost = fmt.Errorf("verif: response lost")
 
 var svTapInst *svTap
 
@@ -235,7 +248,15 @@ func (t *svTap) RoundTrip(r *http.Request) (*http.Response, error) {
 	}
 	t.mu.Lock()
 	t.caps = append(t.caps, cp)
+	drop := t.dropNext && m == "PushPullChanges"
+	if drop {
+		t.dropNext = false
+	}
 	t.mu.Unlock()
+	if drop {
+		_ = resp.Body.Close()
+		return nil, errSvResponseLost
+	}
 	return resp, nil
 }
 
@@ -507,11 +528,18 @@ type svWorld struct {
 	// a replica missed its own earlier operations (svTagReattachOwn): generated traces end at the next step
 	missedStop bool
 	scripted   bool
-	sawReatt   bool
-	sawHit     bool
-	sawAhead   bool
-	sawSnap    bool
-	sawConc    bool
+	// C05: every (attachment, clientSeq) is stored once; the reserved root counter reflects every stored increase once
+	seenCS       map[string]bool
+	pcDelta      map[string]int64 // "<replica>:<clientSeq>" -> sum of the increases of the root counter in that change
+	pcSum        int64            // sum over the stored rows
+	sawLost      bool
+	sawRetry     bool
+	sawRetrySnap bool
+	sawReatt     bool
+	sawHit       bool
+	sawAhead     bool
+	sawSnap      bool
+	sawConc      bool
 }
 
 func svB(x bool) string {
@@ -586,6 +614,24 @@ func svShowPresences(all map[string]presence.Data) string {
 // emitLocal writes the lines of one new local change of rep.
 func (w *svWorld) emitLocal(rep *svReplica, cn *change.Change) {
 	c := w.c
+	if pc := rep.doc.RootObject().Get(svCounterKey); pc != nil && !w.text {
+		for _, op := range cn.Operations() {
+			if inc, ok := op.(*operations.Increase); ok && inc.ParentCreatedAt().Compare(pc.CreatedAt()) == 0 {
+				if p, ok := inc.Value().(*crdt.Primitive); ok {
+					var d int64
+					switch v := p.Value().(type) {
+					case int32:
+						d = int64(v)
+					case int64:
+						d = v
+					case int:
+						d = int64(v)
+					}
+					w.pcDelta[fmt.Sprintf("%s:%d", rep.name, cn.ClientSeq())] += d
+				}
+			}
+		}
+	}
 	for _, op := range cn.Operations() {
 		c.Cmd("OP %s %s", rep.name, w.enc(op, cn))
 		c.Obs("ok")
@@ -914,6 +960,17 @@ func (w *svWorld) afterStore() {
 		for _, cl := range w.clients {
 			if cl.actor == id.ActorID() {
 				cl.stored++
+				if cl.rep != nil {
+					// C05: a retried pack must not store a change again
+					k := fmt.Sprintf("%s:%d", cl.rep.name, cn.ClientSeq())
+					if w.seenCS[k] {
+						svOracle(c, "C05/C04 change clientSeq %d of %s (%s) is stored a second time (row %d)", cn.ClientSeq(), cl.rep.name, cl.name, ss)
+					}
+					w.seenCS[k] = true
+					if len(cn.Operations()) > 0 { // not the server-built presence clear of a Deactivate (it re-uses the next clientSeq)
+						w.pcSum += w.pcDelta[k]
+					}
+				}
 			}
 		}
 		if pc := cn.PresenceChange(); pc != nil {
@@ -999,8 +1056,25 @@ func (w *svWorld) rowOracles(what string, rep *svReplica, res *change.Pack) {
 
 // request runs one SDK call that performs exactly one document RPC and writes all its lines.
 func (w *svWorld) request(kind string, rep *svReplica, call func() error) bool {
+	return w.requestL(kind, rep, false, call)
+}
+
+// requestL: lost = the tap drops the response after the server produced it (PushPullChanges only).
+func (w *svWorld) requestL(kind string, rep *svReplica, lost bool, call func() error) bool {
 	c := w.c
 	w.s.tap.take()
+	// C05 statistics: what does the server hold of this replica's changes before the request?
+	storedCS := uint32(0)
+	if w.hasDoc && kind != "ATT" {
+		if ci, e := w.s.db.FindClientInfoByRefKey(w.ctx(), types.ClientRefKey{ProjectID: w.ref.ProjectID, ClientID: types.IDFromActorID(rep.cl.actor)}); e == nil {
+			storedCS = ci.Checkpoint(w.ref.DocID).ClientSeq
+		}
+	}
+	if lost {
+		w.s.tap.mu.Lock()
+		w.s.tap.dropNext = true
+		w.s.tap.mu.Unlock()
+	}
 	backlog := w.head
 	hadLocal := rep.doc.HasLocalChanges()
 	garbage := rep.doc.GarbageLen()
@@ -1028,6 +1102,17 @@ func (w *svWorld) request(kind string, rep *svReplica, call func() error) bool {
 	if kind == "ATT" {
 		extra += " dp=" + svB(cp.reqDP)
 	}
+	if lost {
+		extra += " lost=1"
+	}
+	nStored, nNew := 0, 0
+	for _, cn := range cp.req.Changes {
+		if cn.ClientSeq() <= storedCS {
+			nStored++
+		} else {
+			nNew++
+		}
+	}
 	c.Cmd("%s %s %s cp=%d,%d chg=%s vv=%s nogc=%s%s", kind, rep.cl.name, rep.name, cp.req.Checkpoint.ServerSeq,
 		cp.req.Checkpoint.ClientSeq, svChg(cp.req.Changes), ShowVV(cp.req.VersionVector), svB(cp.nogc), extra)
 	if cp.res == nil {
@@ -1039,6 +1124,35 @@ func (w *svWorld) request(kind string, rep *svReplica, call func() error) bool {
 	}
 	c.Count("srv:" + kind)
 	c.Obs("%s", svShowResp(cp.res))
+	if nStored > 0 {
+		// a retry: the pack carries changes an earlier request (whose response was lost) has stored already
+		w.sawRetry = true
+		how := "with-changes"
+		if len(cp.res.Snapshot) > 0 {
+			how = "with-snapshot"
+			w.sawRetrySnap = true
+		} else if cp.po {
+			how = "push-only"
+		}
+		what := "stored-only"
+		if nNew > 0 {
+			what = "stored+new"
+		}
+		c.Count("retry:answered-" + how)
+		c.Count("retry:carrying-" + what)
+		c.Count("retry:answered-" + how + ",carrying-" + what)
+	}
+	if lost {
+		// the server is done with the request; the client never saw the answer: nothing applied, nothing acknowledged
+		c.Count("srv:response-lost")
+		w.sawLost = true
+		if err == nil {
+			svOracle(c, "harness: the response of %s was dropped but Sync returned no error", rep.name)
+		}
+		w.afterStore()
+		w.observe(rep)
+		return true
+	}
 	rep.live = kind != "DET"
 	if kind == "ATT" {
 		rep.docDP = cp.resDP
@@ -1318,6 +1432,11 @@ func (w *svWorld) attach(cl *svClient, dp bool, pres string) *svReplica {
 
 func (w *svWorld) sync(rep *svReplica) bool {
 	return w.request("PP", rep, func() error { return rep.cl.cli.Sync(w.ctx(), client.WithKey(w.docKey)) })
+}
+
+// lostSync: a Sync whose response is lost after the server processed the request (C05).
+func (w *svWorld) lostSync(rep *svReplica) bool {
+	return w.requestL("PP", rep, true, func() error { return rep.cl.cli.Sync(w.ctx(), client.WithKey(w.docKey)) })
 }
 
 func (w *svWorld) pushOnly(rep *svReplica) bool {
@@ -1701,19 +1820,23 @@ func (w *svWorld) probe(seed int64) {
 		}
 	}
 	wantP := svShowPresences(ref)
+	c05 := ""
+	if w.sawLost {
+		c05 = "/C05" // convergence after a retry is C05's business too
+	}
 	for _, rep := range reps {
 		m := rep.doc.Marshal()
 		if twinOK && m != want {
-			kind := "C01"
+			kind := "C01" + c05
 			tag := ""
 			if rep.missedOwn {
 				tag = svTag(svTagReattachOwn)
 			}
 			switch {
 			case rep.snapFed:
-				kind = "C01/C02 (snapshot-fed replica)"
+				kind = "C01/C02" + c05 + " (snapshot-fed replica)"
 			case w.gc:
-				kind = "C01/C03 (GC-on replica vs GC-off twin)"
+				kind = "C01/C03" + c05 + " (GC-on replica vs GC-off twin)"
 			}
 			svOracle(c, "%s%s after quiescence %s=%s but the change-fed GC-off fold of the log is %s", tag, kind, rep.name, m, want)
 		}
@@ -1722,7 +1845,19 @@ func (w *svWorld) probe(seed int64) {
 			if rep.missedOwn || reps[0].missedOwn {
 				tag = svTag(svTagReattachOwn)
 			}
-			svOracle(c, "%sC01 replicas diverge after quiescence: %s=%s vs %s=%s", tag, reps[0].name, reps[0].doc.Marshal(), rep.name, m)
+			svOracle(c, "%sC01%s replicas diverge after quiescence: %s=%s vs %s=%s", tag, c05, reps[0].name, reps[0].doc.Marshal(), rep.name, m)
+		}
+		// C05: the reserved root counter reflects every stored increase exactly once (a retried change that is
+		// applied twice shows here even when the peers agree among themselves)
+		if cnt, ok := rep.doc.RootObject().Get(svCounterKey).(*crdt.Counter); ok && !w.text {
+			// the counter is an int32 one: sums wrap the way Counter.Increase wraps them
+			if got := fmt.Sprint(cnt.Value()); got != fmt.Sprint(int32(w.pcSum)) {
+				tag := ""
+				if rep.missedOwn {
+					tag = svTag(svTagReattachOwn)
+				}
+				svOracle(c, "%sC05/C01 after quiescence counter %q on %s is %s but the increases stored in the log, once each, sum to %d", tag, svCounterKey, rep.name, got, int32(w.pcSum))
+			}
 		}
 		if p := svShowPresences(rep.doc.AllPresences()); p != wantP {
 			tag := ""
@@ -1914,6 +2049,10 @@ func (w *svWorld) exec(line string) {
 		if rep := needRep(); rep != nil && rep.live {
 			w.pushOnly(rep)
 		}
+	case "lostsync":
+		if rep := needRep(); rep != nil && rep.live {
+			w.lostSync(rep)
+		}
 	case "detach":
 		if rep := needRep(); rep != nil && rep.live {
 			w.detach(rep)
@@ -2040,6 +2179,12 @@ func (w *svWorld) generate() {
 			h := live[r.Intn(len(live))]
 			w.do("! edit %s %d", h.name, r.Int63())
 			c.Count("schedule:holder-burst")
+			if r.Intn(3) == 0 {
+				// … and the response of its sync is lost: its edits are stored, it does not know, its peers push on
+				// (often past the snapshot threshold), it may edit further, and its next sync is the retry
+				w.do("! lostsync %s", h.name)
+				c.Count("schedule:lost-response-then-peers-push")
+			}
 			for round, rounds := 0, 2+r.Intn(2); round < rounds; round++ {
 				for _, p := range live {
 					if p != h {
@@ -2059,9 +2204,12 @@ func (w *svWorld) generate() {
 		default:
 			rep := live[r.Intn(len(live))]
 			if r.Intn(100) < rep.syncP {
-				if r.Intn(12) == 0 {
+				switch y := r.Intn(24); {
+				case y < 2:
 					w.do("! pushonly %s", rep.name)
-				} else {
+				case y < 5:
+					w.do("! lostsync %s", rep.name)
+				default:
 					w.do("! sync %s", rep.name)
 				}
 			} else {
@@ -2108,6 +2256,15 @@ func (w *svWorld) finish() {
 	if w.sawAhead {
 		c.Count("trace:with-rebuild-behind-the-cached-document")
 	}
+	if w.sawLost {
+		c.Count("trace:with-lost-response")
+	}
+	if w.sawRetry {
+		c.Count("trace:with-retry")
+	}
+	if w.sawRetrySnap {
+		c.Count("trace:with-retry-answered-with-snapshot")
+	}
 	if w.sawSnap && w.sawConc {
 		c.Nontrivial()
 	}
@@ -2125,7 +2282,7 @@ func (w *svWorld) finish() {
 
 func newSvWorld(c *Ctx) *svWorld {
 	return &svWorld{c: c, s: svServer(), seenTicket: map[string]bool{}, lastLam: map[string]int64{},
-		pseqAt: map[int64]int{}, pseqOf: map[string]int{}}
+		pseqAt: map[int64]int{}, pseqOf: map[string]int{}, seenCS: map[string]bool{}, pcDelta: map[string]int64{}}
 }
 
 func (w *svWorld) guarded(f func()) {
